@@ -416,11 +416,11 @@ fn u16b(r: &mut Rng) -> u16 {
 /// interesting scalar values for aliases / host names: ASCII plus the edges of
 /// is_control / is_whitespace and of the UTF-8 length classes
 const SCALARS: &[u32] = &[
-    0x21, 0x40, 0x7e, 0x61, 0x5a, 0x2f, 0x3a, 0x80, 0xa1, 0xff, 0x7ff, 0x800, 0xfffd, 0xffff, 0x10000, 0x10ffff,
+    0x21, 0x40, 0x7e, 0x61, 0x5a, 0x2f, 0x3a, 0xa1, 0xff, 0x7ff, 0x800, 0xfffd, 0xffff, 0x10000, 0x10ffff,
     0x200b, 0x180e, 0xfeff, 0x2060, 0x00ad, 0xd7ff, 0xe000, 0x4e2d, 0x1f600,
 ];
 const BAD_ALIAS_SCALARS: &[u32] = &[
-    0x00, 0x09, 0x0a, 0x0d, 0x1f, 0x20, 0x7f, 0x85, 0x9f, 0xa0, 0x1680, 0x2000, 0x200a, 0x2028, 0x2029, 0x202f,
+    0x00, 0x09, 0x0a, 0x0d, 0x1f, 0x20, 0x7f, 0x80, 0x85, 0x9f, 0xa0, 0x1680, 0x2000, 0x200a, 0x2028, 0x2029, 0x202f,
     0x205f, 0x3000, 0x0b, 0x0c, 0x1c,
 ];
 fn push_scalar(out: &mut Vec<u8>, c: u32) {
@@ -1216,6 +1216,27 @@ fn main() {
     for (id, bs) in &fixed {
         if run.args.wants(id) {
             decode_case(&mut run, id, bs, "k");
+        }
+    }
+
+    // --- the Refs codec of wire.rs (not part of any Message; observed, not judged): entries are
+    // collected into a BTreeMap, so unsorted or duplicate entries decode and re-encode differently
+    if run.args.only.is_none() {
+        let entry = |name: &[u8], fill: u8| { let mut v = vec![name.len() as u8]; v.extend_from_slice(name); v.extend_from_slice(&[0, 20]); v.extend_from_slice(&[fill; 20]); v };
+        let probes: Vec<(&str, Vec<u8>)> = vec![
+            ("sorted", [vec![0u8, 2], entry(b"refs/heads/a", 1), entry(b"refs/heads/b", 2)].concat()),
+            ("unsorted", [vec![0u8, 2], entry(b"refs/heads/b", 2), entry(b"refs/heads/a", 1)].concat()),
+            ("duplicate", [vec![0u8, 2], entry(b"refs/heads/a", 1), entry(b"refs/heads/a", 2)].concat()),
+        ];
+        for (what, bs) in probes {
+            let verdict = match catch(AssertUnwindSafe(|| wire::deserialize::<radicle::storage::refs::Refs>(&bs).map(|r| wire::serialize(&r)))) {
+                Ok(Ok(re)) if re == bs => "decodes, re-encodes identically",
+                Ok(Ok(_)) => "decodes, re-encodes DIFFERENTLY",
+                Ok(Err(_)) => "rejected",
+                Err(_) => "panics",
+            };
+            run.tally(&format!("refs-codec:{}:{}", what, verdict));
+            run.note(format!("Refs codec (unused by Message) on {} entries: {}", what, verdict));
         }
     }
 
